@@ -21,11 +21,13 @@ class C03(Cfg):
                   "a deletion record removes every version of its row) is a semilattice; for any finite set of replicas and any sequence of directed pulls, when a full round "
                   "of all ordered pairs changes nothing all replicas are equal, a further pull transfers nothing, every replica holds the join of all initial replicas "
                   "(hence the same state for every schedule and arrival order) and the version shown for a row is the maximum of all versions any replica held, or nothing if the row was deleted. "
-                  "Refinement (proved): for the executable model of synchronise_room with five switches off (#18 ingestion consults deletion records, synchronised deletion not room-scoped, "
-                  "deletion records not keyed by row id, #30 references for every announced row, room summary covering every entity) and every other switch as in the code, "
+                  "Refinement (proved): for the executable model of synchronise_room with four switches off (#18 ingestion consults deletion records, synchronised deletion not room-scoped, "
+                  "deletion records not keyed by row id, room summary covering every entity) and every other switch as in the code (#30 references only for fetched rows included: immaterial for rows and records), "
                   "one pull changes the puller's rows and node deletion records to join(puller, source restricted to the room) - for replicas whose logs are the logs of their content (C09), "
-                  "with unique row ids, no stored row carrying a deletion record (C11), a signature standing for the record it signs, and members holding every right; without the log hypothesis "
-                  "the pull is the sequence of joins with the days whose daily hash differs. Hence, for the code with those five repairs, every schedule converges to the join of all replicas. "
+                  "with unique row ids, no stored row carrying a deletion record (C11), a signature standing for the record it signs, and members holding every right (C03_refines_pull); without the log hypothesis "
+                  "the pull is the sequence of joins with the days whose daily hash differs. The same equation with the room-scoped deletion and the batches keyed by row id LEFT AS IN THE CODE, as conditions on the data: "
+                  "rows keep their room, the source holds no two deletion records of one row on one day (C03_refines_pull_code; the puller afterwards again satisfies C11's invariant and the room condition). "
+                  "What separates the code with #18 repaired from this equation: the room summary of one entity, members without the all-rows right (#19), the daily-log findings of C09. "
                   "NOT proved: that these hypotheses are re-established after every pull inside one induction over schedules (pieces exist: C09_model_*, C11_invariant), the references, members with the own-rows right only (#19), "
                   "and the partial convergence theorem for the code as it is. For the code as it is statement C03 is refuted by decide-checked model traces, each replayed on real instances: "
                   "right required depends on the local author (#19), references fetched only for winning rows and absent from the daily hash (#30), deletion records of one answer keyed by row id (new), "
